@@ -522,7 +522,19 @@ impl Gen {
                 json!([k, self.val()])
             })
             .collect();
-        json!({"op":"ParExtend","s":s,"items":items,"threads":threads})
+        // duplicates of the first key later in the sequence (the later value must win), and an
+        // unbalanced source (head.chain(tail)) so that rayon's split tree is lopsided
+        let mut items = items;
+        if !items.is_empty() && !self.cfg.zst && self.rng.gen_bool(0.6) {
+            let k0 = items[0][0].clone();
+            let pos = self.rng.gen_range(1..=items.len());
+            items.insert(pos, json!([k0, (items[0][1].as_u64().unwrap_or(0) + 1 + self.rng.gen_range(0..5)) % 10]));
+        }
+        let mut o = json!({"op":"ParExtend","s":s,"items":items,"threads":threads});
+        if self.rng.gen_bool(0.5) {
+            o["chain"] = json!(1);
+        }
+        o
     }
 
     fn next_set_op<K: KeyT, V: ValT>(
